@@ -1,0 +1,13 @@
+// +build verif
+
+package stack
+
+import "time"
+
+// VerifSetLinkAddrCacheTiming replaces the (still empty) neighbour cache by one
+// with the given timing, so that expiry and the retry budget can be exercised
+// without waiting for the production timeouts. Must be called before any NIC
+// traffic.
+func (s *Stack) VerifSetLinkAddrCacheTiming(age, timeout time.Duration, attempts int) {
+	s.linkAddrCache = newLinkAddrCache(age, timeout, attempts)
+}
